@@ -65,6 +65,8 @@ def known_symbols():
                 if not is_ensembl(k) and '.' not in k]
         _SYMS['keys'] = keys
         _SYMS['lookup'] = mouse_gene_id_lookup
+        _SYMS['real_ens'] = sorted({v for v in list(
+            mouse_gene_id_lookup.values())[:6000] if is_ensembl(v)})
     return _SYMS['keys'], _SYMS['lookup']
 
 
@@ -83,6 +85,10 @@ def make_genes(rng, n, klass):
         for _ in range(50):
             if kind == 'ens':
                 nm = f'ENSMUSG{int(rng.integers(10 ** 6, 10 ** 8)):011d}'
+                if rng.random() < 0.5:
+                    # an identifier the shipped mouse table knows
+                    nm = _SYMS['real_ens'][int(rng.integers(
+                        len(_SYMS['real_ens'])))]
                 tgt = nm
             elif kind == 'enssuf':
                 base = f'ENSMUSG{int(rng.integers(10 ** 6, 10 ** 8)):011d}'
@@ -209,12 +215,20 @@ def check_one(ctx, rng, work, idx):
     import contextlib
     import io
     import warnings
+    keys, lookup = known_symbols()
+    known = set(keys) | set(_SYMS['real_ens'])
+    infer = bool(rng.random() < 0.35) and any(
+        g.split('.')[0] in known or g in known for g in genes)
+    if infer:
+        ctx.bump('species_inferred_runs')
     try:
         with warnings.catch_warnings(), \
                 contextlib.redirect_stdout(io.StringIO()):
             warnings.simplefilter('ignore')
             res = validate_h5ad(
-                h5ad_path=src, gene_id_mapper=GeneIdMapper.from_mouse(),
+                h5ad_path=src,
+                gene_id_mapper=(None if infer
+                                else GeneIdMapper.from_mouse()),
                 tmp_dir=str(scratch), layer='X' if layer is None else layer,
                 round_to_int=round_to_int,
                 output_dir=str(outd) if use_output_dir else None,
